@@ -24,5 +24,8 @@ let dispatch fn args = match fn, args with
   | "docModified", [v; fsize; f; arr; c; incr; dts] ->
       str_of_tri (docModifiedWith (tri_of_str v) (z_of_hex fsize) (bytes_of_hex f) (zlist_of_string arr)
                     (contents_of c) (z_of_hex incr) (bool_of_str dts))
+  | "docModifiedP7", [good; sha1ok; sigok; cmsc; fsize; f; arr; c; incr; dts] ->
+      str_of_tri (docModifiedP7With (bytes_of_hex good) (bool_of_str sha1ok) (bool_of_str sigok) (bytes_of_hex cmsc)
+                    (z_of_hex fsize) (bytes_of_hex f) (zlist_of_string arr) (contents_of c) (z_of_hex incr) (bool_of_str dts))
   | _ -> failwith ("unknown function " ^ fn)
 let () = main dispatch
